@@ -352,6 +352,11 @@ func (s *SecureConfig) Check(filePath string) (bool, error) {
 	}
 	defer file.Close()
 
+	// Hash keeps whatever was written to it before: start from a clean state,
+	// or a SecureConfig that is checked a second time (a plugin relaunched
+	// with the same config, several clients sharing one) compares the hash of
+	// both files' bytes together and rejects a binary that matches.
+	s.Hash.Reset()
 	_, err = io.Copy(s.Hash, file)
 	if err != nil {
 		return false, err
